@@ -66,6 +66,9 @@ pub struct World {
     pub ai_checkpoints: usize,
     /// last checkpoint payload (for verbatim repetition)
     pub last_checkpoint: Option<String>,
+    /// invocation context of user-facing git commands: 0 repository root, 1 a
+    /// sub-directory, 2 outside with -C <abs>, 3 outside with chained -C
+    pub context: u8,
 }
 
 #[derive(Debug, Clone, Default)]
@@ -97,6 +100,7 @@ impl World {
             transcript_for: BTreeMap::new(),
             ai_checkpoints: 0,
             last_checkpoint: None,
+            context: 0,
         };
         for i in 0..4 {
             let tool = format!("tool{}", i);
@@ -133,13 +137,65 @@ impl World {
 
     // -------------------------------------------------------------- git drivers
 
+    fn contextual<'a>(&mut self, args: &[&'a str], store: &'a mut Vec<String>) -> (PathBuf, Vec<&'a str>) {
+        match self.context {
+            1 => {
+                let d = self.repo.join("ctx-subdir");
+                let _ = std::fs::create_dir_all(&d);
+                // (empty directory: invisible to git). Path arguments - everything after a
+                // `--` - are given relative to the repository root by the engine.
+                let mut v: Vec<&'a str> = Vec::new();
+                let mut after = false;
+                for a in args {
+                    if after {
+                        store.push(format!("../{}", a));
+                    }
+                    if *a == "--" {
+                        after = true;
+                    }
+                }
+                let mut k = 0usize;
+                let mut after = false;
+                // second pass to hand out references into `store`
+                let store_ref: &'a Vec<String> = unsafe { &*(store as *const Vec<String>) };
+                for a in args {
+                    if after {
+                        v.push(store_ref[k].as_str());
+                        k += 1;
+                    } else {
+                        v.push(a);
+                    }
+                    if *a == "--" {
+                        after = true;
+                    }
+                }
+                (d, v)
+            }
+            2 => {
+                store.push(self.repo.to_string_lossy().into_owned());
+                let mut v: Vec<&'a str> = vec!["-C", store[0].as_str()];
+                v.extend_from_slice(args);
+                (self.sb.root.clone(), v)
+            }
+            3 => {
+                store.push(self.sb.root.to_string_lossy().into_owned());
+                let mut v: Vec<&'a str> = vec!["-C", store[0].as_str(), "-C", "repo"];
+                v.extend_from_slice(args);
+                (self.sb.home.clone(), v)
+            }
+            _ => (self.repo.clone(), args.to_vec()),
+        }
+    }
+
     pub fn git(&mut self, args: &[&str]) -> Out {
-        let r = self.repo.clone();
-        self.sb.git_in(&r, args)
+        let mut store = Vec::new();
+        let (cwd, a) = self.contextual(args, &mut store);
+        self.sb.git_in(&cwd, &a)
     }
     pub fn git_env(&mut self, args: &[&str], env: &[(&str, &str)]) -> Out {
-        let r = self.repo.clone();
-        self.sb.git_env(&r, args, env)
+        let mut store = Vec::new();
+        let (cwd, a) = self.contextual(args, &mut store);
+        self.sb.git_env(&cwd, &a, env)
     }
     pub fn rgit(&mut self, args: &[&str]) -> Out {
         let r = self.repo.clone();
